@@ -7,6 +7,7 @@ import RsyncModel.Driver.DeleteOps
 import RsyncModel.Driver.FlistOps
 import RsyncModel.Driver.WireOps
 import RsyncModel.Driver.OptsOps
+import RsyncModel.Driver.SshOps
 open Driver
 
 def dispatch (line : String) : String :=
@@ -22,6 +23,7 @@ def dispatch (line : String) : String :=
     else if op == "delete" || op == "find" || op == "utf8" || op == "filter" then deleteOp fs
     else if op == "gen" || op == "genrecv" then genOp fs
     else if ["sum1", "md4", "sumsizes", "gensums", "search", "recvdata"].contains op then deltaOp fs
+    else if op.startsWith "ssh" || op == "dispatchclass" then sshOp fs
     else if op == "optparse" || op == "serveropts" || op == "dispatch" then optsOp fs
     else "bad-op"
 
